@@ -380,7 +380,11 @@ func (s *Syncer) handleRPC(id types.Specifier, stream *gateway.Stream, origin *P
 		// NOTE: The purpose of header announcements is to inform the network as
 		// quickly as possible that a new block has been found. A proper
 		// BlockOutline should follow soon after, allowing peers to obtain the
-		// actual block. As such, we take no action here other than relaying.
+		// actual block. However, an outline is not guaranteed to follow (the
+		// peer may have obtained the block by syncing, and v1 blocks have no
+		// outline at all), so make sure the next sync round asks the peer for
+		// it; if the block has arrived by then, that round is a no-op.
+		s.resync(origin, "peer relayed a v2 header that extends our tip")
 		go s.relayV2Header(r.Header, origin) // non-blocking
 		return nil
 
